@@ -54,7 +54,7 @@ type C08Obs struct {
 }
 
 func (h *C08Header) gschema() *GSchema {
-	g := &GSchema{HasTypes: true, Types: []string{h.Type}, Format: h.Format}
+	g := &GSchema{HasTypes: true, Types: strings.Split(h.Type, "|"), Format: h.Format} // "integer|string": a list of types
 	g.Max = h.Max
 	return g
 }
@@ -231,17 +231,28 @@ func c08Coq(c *C08Case, o *C08Obs) string {
 			found := val != nil
 			decoded := "None"
 			if found {
-				switch h.Type {
-				case "integer":
-					bits := 64
-					if h.Format == "int32" {
-						bits = 32
+				// the text read at the declared type; with a list of types, at the first one that can read it
+			types:
+				for _, t := range strings.Split(h.Type, "|") {
+					switch t {
+					case "integer":
+						bits := 64
+						if h.Format == "int32" {
+							bits = 32
+						}
+						if n, err := strconv.ParseInt(*val, 0, bits); err == nil {
+							decoded = "(Some " + coqJSON(float64(n)) + ")"
+							break types
+						}
+					case "boolean":
+						if *val == "true" || *val == "false" {
+							decoded = "(Some " + coqJSON(*val == "true") + ")"
+							break types
+						}
+					default:
+						decoded = "(Some " + coqJSON(*val) + ")"
+						break types
 					}
-					if n, err := strconv.ParseInt(*val, 0, bits); err == nil {
-						decoded = "(Some " + coqJSON(float64(n)) + ")"
-					}
-				default:
-					decoded = "(Some " + coqJSON(*val) + ")"
 				}
 			}
 			hterms = append(hterms, fmt.Sprintf("mkHdr %s %s %s %s %s", coqStr(h.Name), coqBool(h.Required), schema, coqBool(found), decoded))
@@ -476,6 +487,14 @@ func c08Directed() []C08Case {
 	add(200, "application/json", `{"id":1}`, func(c *C08Case) {
 		c.Responses = map[string]C08Resp{"200": {Headers: []C08Header{{Name: "X-A", ByContent: true, Type: "integer", Value: S("5")}}}}
 	})
+	// a header whose schema lists two types: the text is read as the first type that can read it
+	for _, tv := range [][2]string{{"integer|string", "unlimited"}, {"integer|string", "5"}, {"integer|string", "7"}, {"string|integer", "7"}, {"boolean|integer", "7"}, {"integer|boolean", "true"}} {
+		tv := tv
+		add(200, "application/json", `{"id":1}`, func(c *C08Case) {
+			r := c.Responses["200"]
+			c.Responses = map[string]C08Resp{"200": {Headers: []C08Header{{Name: "X-A", Required: true, Type: tv[0], Max: fp(6), Value: S(tv[1])}}, Content: r.Content}}
+		})
+	}
 	add(418, "application/json", `{}`, func(c *C08Case) { c.Responses = map[string]C08Resp{"200": base["200"]}; c.IncludeStatus = true })
 	add(418, "application/json", `{}`, func(c *C08Case) { c.Responses = map[string]C08Resp{"200": base["200"]} })
 	add(200, "application/json", `{}`, func(c *C08Case) { c.Responses = map[string]C08Resp{}; c.IncludeStatus = true })
